@@ -18,6 +18,7 @@ def setup(J):
         add("g5", 2, 2, "cmd"); add("g6", 1, 1, "cmd"); add("g6b", 2, 1, "cmd"); add("g14a", 1, 1, "cmd"); add("g14a", 2, 2, "func"); add("g8b", 2, 1, "cmd"); add("g14b", 1, 1, "cmd"); add("g14b", 1, 2, "func")
         for sep, k in ((",", 2), (" ", 3)):
             jobs.append(J.with_delay_fallback(J.wf("C10", "gjoin", k, 1, 2, "cmd", oracles=["nohang", "clean", "c10", "c18"], tier=tier, events_dep=False, extra=sep, id=f"C10-gjoin-k{k}-sep{ord(sep)}")))
+        jobs.append(J.with_delay_fallback(J.wf("C10", "gjoin3", 2, 1, 2, "cmd", oracles=["nohang", "clean", "c10"], tier=tier, events_dep=False, extra=",", id="C10-gjoin3-k2")))
         # "each output file FINALIZED by a task is accompanied by <path>.audit.json" is a statement about
         # every instant: crash points of every schedule + failing sibling tasks
         for g, i, m, kind in (("g2", 1, 1, "cmd"), ("g3", 1, 1, "cmd"), ("g7", 1, 1, "func"), ("g2", 2, 2, "cmd")):
@@ -26,7 +27,7 @@ def setup(J):
             jobs.append(J.with_delay_fallback(J.wf("C10", "g2", 2, 1, 2, "cmd", oracles=["nohang", "c10-instant"], tier=tier, events_dep=False, crash=True, fault={"proc": "p", "match": "in1.txt", "kind": fk}, id=f"C10-instant-g2-fault-{fk}")))
         if not q:
             add("g3", 3, 2, "cmd"); add("g4", 2, 2, "cmd"); add("g6", 2, 2, "cmd"); add("g7", 2, 2, "func"); add("g8", 2, 2, "func"); add("g5b", 2, 2, "cmd"); add("g12", 3, 2, "cmd")
-        return {"level": "model_checking", "native": True, "stages": [lambda ctx, prev: jobs, J.maporder_stage("C10", o, tier)],
+        return {"level": "model_checking", "native": True, "stages": [lambda ctx, prev: jobs, J.maporder_stage("C10", o, tier), J.maporder_stage("C10", o, tier, graphs=("gjoin3",))],
                 "rule": "graphs G3 G5 G6 G6b G7 G8 G8b G14a + join scenario, command and Go-function bodies, every Mazurkiewicz trace (audit content must not depend on the schedule) + forced map-iteration orders; every finalized output's .audit.json parsed and compared field by field with the reference lineage tree: process name, exact command handed to the exec seam, params, tags (incl. tags attached by MapToTags on every descendant), out-files, Upstream keyed by input path recursively to the sources, start <= finish, duration >= 0",
                 "assumptions": J.BASE_ASSUMPTIONS + ["IDs and absolute times are not compared", "the tagging-on-a-fan-out-arm scenario (G14) belongs to C12: its audit content depends on a data race (known finding there)"]}
 
@@ -73,6 +74,15 @@ def setup(J):
                     nj["budget"] = J.budget(tier, 20, 300)
                     nj["_fallback_delay"] = 1 if q else 2
                     jobs.append(nj)
+                    # environment deviation: the n-th read of an existing audit file fails (EMFILE). The
+                    # resumed run may stop, but may not go on with a made-up (empty) ancestor record
+                    for nth in range(1, 4 if q else 7):
+                        fj = copy.deepcopy(nj)
+                        fj["id"] = nj["id"] + f"-readfault{nth}"
+                        fj["read_fault"] = {"suffix": ".audit.json", "nth": nth}
+                        fj["oracles"] = ["nohang", "c10", "c04", "c11-roundtrip", "c11-unchanged"]
+                        fj["budget"] = J.budget(tier, 10, 120)
+                        jobs.append(fj)
                 if j.get("_full"):
                     units = (r.get("extra_info") or {}).get("task_outputs") or []
                     idxs = list(range(len(units)))
@@ -112,6 +122,6 @@ def setup(J):
             jobs = [j for j in inner(ctx, prev) if j.get("clean")]
             return jobs
         return {"level": "fault_enumeration", "stages": [stage1, stage2, stage_crash, stage_recover],
-                "rule": "histories: (a) every RunTo prefix, then Run; (b) every distinct crash state (disk after every FS mutation of every schedule) + cleanup + resume; (c) complete run, EVERY non-empty subset of task outputs deleted with their audit files, re-run; each resumed run under every Mazurkiewicz trace; oracle: audit tree of every final output = reference lineage (process, command, params, tags, out-files of every ancestor), records of ancestors that were not re-executed byte-identical to those on disk, write -> UnmarshalAuditInfoJSONFile -> marshal is the identity",
+                "rule": "histories: (a) every RunTo prefix, then Run (+ the same with the n-th read of an existing audit file failing, n = 1..3 (6): stop or same lineage); (b) every distinct crash state (disk after every FS mutation of every schedule) + cleanup + resume; (c) complete run, EVERY non-empty subset of task outputs deleted with their audit files, re-run; each resumed run under every Mazurkiewicz trace; oracle: audit tree of every final output = reference lineage (process, command, params, tags, out-files of every ancestor), records of ancestors that were not re-executed byte-identical to those on disk, write -> UnmarshalAuditInfoJSONFile -> marshal is the identity",
                 "assumptions": J.BASE_ASSUMPTIONS + ["IDs and times are excluded from the lineage comparison", "crash states of the two-output rename gap (C03 known finding) are judged by C03, not here"],
                 "distinct_nontrivial_fn": lambda rs: sum((r.get("distinct_outcomes") or 0) for r in rs if r["job"].get("seed_dir"))}
